@@ -25,38 +25,76 @@ theorem delayApplies_zero : delayApplies 0 = false := by
 theorem afterRun_ret (lim : Option Nat) (n : Nat) : afterRun lim n .ret = .finish .ret := by
   simp [afterRun]
 
-theorem afterRun_cancelled (lim : Option Nat) (n : Nat) : afterRun lim n .cancelled = .finish .cancelled := by
-  simp [afterRun, handlerFor, handlers, Outcome.isInstance]
+/-- The tie between the source and the property: the restarting `except` clause is reached by exactly the failures
+(`Exception`s: plain or `ExceptionGroup`), whatever other clauses stand before it — and by nothing else: not by a
+return, a `CancelledError`, a non-`Exception` `BaseException`, nor a `BaseExceptionGroup` that is no `ExceptionGroup`.
+(Fails to build when a clause is widened, narrowed, reordered or given another action.) -/
+theorem restartsOn_eq_isFailure (o : Outcome) : restartsOn o = o.isFailure := by
+  cases o <;> decide
 
-theorem afterRun_baseExc (lim : Option Nat) (n : Nat) : afterRun lim n .baseExc = .finish .baseExc := by
-  simp [afterRun, handlerFor, handlers, Outcome.isInstance]
+/-- Every clause other than the restarting one re-raises. -/
+theorem handlerFor_cases (o : Outcome) :
+    (o.isFailure = true ∧ handlerFor handlers o = some .restartOrReraise) ∨
+    (o.isFailure = false ∧ (handlerFor handlers o = some .reraise ∨ handlerFor handlers o = none)) := by
+  cases o <;> decide
+
+theorem afterRun_failure (lim : Option Nat) (n : Nat) (o : Outcome) (ho : o.isFailure = true) :
+    afterRun lim n o = if restartAllowed lim n then .restart else .finish o := by
+  rcases handlerFor_cases o with ⟨_, h⟩ | ⟨h, _⟩
+  · have hr : o ≠ .ret := by intro h'; subst h'; cases ho
+    simp [afterRun, hr, h]
+  · rw [ho] at h; cases h
+
+theorem afterRun_nonFailure (lim : Option Nat) (n : Nat) (o : Outcome) (ho : o.isFailure = false) :
+    afterRun lim n o = .finish o := by
+  rcases handlerFor_cases o with ⟨h, _⟩ | ⟨_, h | h⟩
+  · rw [ho] at h; cases h
+  · unfold afterRun; split
+    · rename_i hr; rw [hr]
+    · simp [h]
+  · unfold afterRun; split
+    · rename_i hr; rw [hr]
+    · simp [h]
+
+theorem afterRun_cancelled (lim : Option Nat) (n : Nat) : afterRun lim n .cancelled = .finish .cancelled :=
+  afterRun_nonFailure lim n _ rfl
+
+theorem afterRun_baseExc (lim : Option Nat) (n : Nat) : afterRun lim n .baseExc = .finish .baseExc :=
+  afterRun_nonFailure lim n _ rfl
+
+theorem afterRun_baseGroup (lim : Option Nat) (n : Nat) : afterRun lim n .baseGroup = .finish .baseGroup :=
+  afterRun_nonFailure lim n _ rfl
 
 theorem afterRun_exc (lim : Option Nat) (n : Nat) :
-    afterRun lim n .exc = if restartAllowed lim n then .restart else .finish .exc := by
-  simp [afterRun, handlerFor, handlers, Outcome.isInstance]
+    afterRun lim n .exc = if restartAllowed lim n then .restart else .finish .exc :=
+  afterRun_failure lim n _ rfl
 
-/-- `_run_loop` restarts exactly after an `Exception` with the guard true; otherwise the task ends with the outcome. -/
+theorem afterRun_excGroup (lim : Option Nat) (n : Nat) :
+    afterRun lim n .excGroup = if restartAllowed lim n then .restart else .finish .excGroup :=
+  afterRun_failure lim n _ rfl
+
+/-- `_run_loop` restarts exactly after a failure (an `Exception`, plain or group) with the guard true; otherwise the
+task ends with the outcome. -/
 theorem afterRun_cases (lim : Option Nat) (n : Nat) (o : Outcome) :
-    (afterRun lim n o = .restart ∧ o = .exc ∧ restartAllowed lim n = true) ∨
-    (afterRun lim n o = .finish o ∧ (o ≠ .exc ∨ restartAllowed lim n = false)) := by
-  cases o
-  · right; simp [afterRun_ret]
-  · rw [afterRun_exc]; by_cases h : restartAllowed lim n = true <;> simp [h]
-  · right; simp [afterRun_baseExc]
-  · right; simp [afterRun_cancelled]
+    (afterRun lim n o = .restart ∧ o.isFailure = true ∧ restartAllowed lim n = true) ∨
+    (afterRun lim n o = .finish o ∧ (o.isFailure = false ∨ restartAllowed lim n = false)) := by
+  cases ho : o.isFailure
+  · right; exact ⟨afterRun_nonFailure lim n o ho, Or.inl rfl⟩
+  · rw [afterRun_failure lim n o ho]
+    by_cases h : restartAllowed lim n = true <;> simp [h]
 
 
 /-! ### the restart chain -/
 
 /-- A history (newest first) is a restart chain: it starts with `enter 0`; every exit closes the entry before it;
-every further entry `k+1` follows an exit of invocation `k` with an `Exception`, with the restart guard true for `k`,
+every further entry `k+1` follows an exit of invocation `k` with a failure (an `Exception`), with the restart guard true for `k`,
 and not before the restart delay has elapsed. -/
 def ChainOk (lim : Option Nat) : List HEv → Prop
   | [] => True
   | [.enter n _] => n = 0
   | .exit k _ _ :: .enter k' t' :: rest => k = k' ∧ ChainOk lim (.enter k' t' :: rest)
   | .enter k t :: .exit k' o t' :: rest =>
-      k = k' + 1 ∧ o = .exc ∧ restartAllowed lim k' = true ∧ t' + restartDelayUs ≤ t ∧
+      k = k' + 1 ∧ o.isFailure = true ∧ restartAllowed lim k' = true ∧ t' + restartDelayUs ≤ t ∧
       ChainOk lim (.exit k' o t' :: rest)
   | _ => False
 
@@ -66,8 +104,8 @@ def PhaseOk (lim : Option Nat) (t : Tsk) : Prop :=
   | .fresh => t.hist = []
   | .extra => t.hist = []
   | .running n => ∃ tm rest, t.hist = .enter n tm :: rest
-  | .delay n u => ∃ k tm rest, n = k + 1 ∧ t.hist = .exit k .exc tm :: rest ∧ restartAllowed lim k = true ∧
-      u = tm + restartDelayUs
+  | .delay n u => ∃ k o tm rest, n = k + 1 ∧ o.isFailure = true ∧ t.hist = .exit k o tm :: rest ∧
+      restartAllowed lim k = true ∧ u = tm + restartDelayUs
   | .done o => t.hist = [] ∨ ∃ k o' tm rest, t.hist = .exit k o' tm :: rest ∧
       (afterRun lim k o' = .finish o ∨ (afterRun lim k o' = .restart ∧ o = .cancelled))
 
@@ -98,20 +136,20 @@ theorem TaskInv_step (lim : Option Nat) (now : Int) (r : StepRes) (t : Tsk) (h :
     cases cr <;> simp [Tsk.step, beginIteration, delayApplies_zero, TaskInv, PhaseOk, ChainOk]
   | delay n u =>
     simp only [PhaseOk] at hp
-    obtain ⟨k, tm, rest, hn, hh, hal, hu⟩ := hp
+    obtain ⟨k, o, tm, rest, hn, hof, hh, hal, hu⟩ := hp
     subst hh
     cases cr with
     | true =>
       simp only [Tsk.step, if_true, TaskInv, PhaseOk]
-      refine ⟨hc, Or.inr ⟨k, .exc, tm, rest, rfl, Or.inr ⟨?_, by first | rfl | trivial⟩⟩⟩
-      rw [afterRun_exc, hal]; rfl
+      refine ⟨hc, Or.inr ⟨k, o, tm, rest, rfl, Or.inr ⟨?_, by first | rfl | trivial⟩⟩⟩
+      rw [afterRun_failure lim k o hof, hal]; rfl
     | false =>
       by_cases hle : u ≤ now
       · simp only [Tsk.step, hle, if_true, TaskInv, PhaseOk]
-        refine ⟨⟨hn, rfl, hal, by omega, hc⟩, ?_⟩
+        refine ⟨⟨hn, hof, hal, by omega, hc⟩, ?_⟩
         exact ⟨now, _, rfl⟩
       · simp only [Tsk.step, hle, if_false, TaskInv, PhaseOk]
-        exact ⟨hc, k, tm, rest, hn, rfl, hal, hu⟩
+        exact ⟨hc, k, o, tm, rest, hn, hof, rfl, hal, hu⟩
   | running n =>
     simp only [PhaseOk] at hp
     obtain ⟨tm, rest, hh⟩ := hp
@@ -123,8 +161,7 @@ theorem TaskInv_step (lim : Option Nat) (now : Int) (r : StepRes) (t : Tsk) (h :
         unfold ChainOk; exact ⟨rfl, hc⟩
       rcases afterRun_cases lim n o with ⟨ha, ho, hal⟩ | ⟨ha, _⟩
       · simp only [Tsk.step, ha, beginIteration, delayApplies_succ, if_true, TaskInv, PhaseOk]
-        subst ho
-        exact ⟨hc', n, now, _, rfl, rfl, hal, rfl⟩
+        exact ⟨hc', n, o, now, _, rfl, ho, rfl, hal, rfl⟩
       · simp only [Tsk.step, ha, TaskInv, PhaseOk]
         exact ⟨hc', Or.inr ⟨n, o, now, _, rfl, Or.inl ha⟩⟩
   | extra =>
@@ -151,11 +188,12 @@ theorem ChainOk_suffix {lim : Option Nat} (post : List HEv) {l : List HEv} (h : 
   | nil => exact h
   | cons x post ih => exact ih (ChainOk_tail h)
 
-/-- An entry of invocation `k+1` sits directly on an exit of invocation `k` with an `Exception`, allowed by the guard,
-at least `RESTART_DELAY` earlier. -/
+/-- An entry of invocation `k+1` sits directly on an exit of invocation `k` with a failure (an `Exception`), allowed by
+the guard, at least `RESTART_DELAY` earlier. -/
 theorem ChainOk_enter_succ {lim : Option Nat} {post pre : List HEv} {k : Nat} {tm : Int}
     (h : ChainOk lim (post ++ .enter (k + 1) tm :: pre)) :
-    ∃ t0 pre', pre = .exit k .exc t0 :: pre' ∧ restartAllowed lim k = true ∧ t0 + restartDelayUs ≤ tm := by
+    ∃ o t0 pre', pre = .exit k o t0 :: pre' ∧ o.isFailure = true ∧ restartAllowed lim k = true ∧
+      t0 + restartDelayUs ≤ tm := by
   have h' := ChainOk_suffix post h
   cases pre with
   | nil => simp [ChainOk] at h'
@@ -166,8 +204,8 @@ theorem ChainOk_enter_succ {lim : Option Nat} {post pre : List HEv} {k : Nat} {t
       simp only [ChainOk] at h'
       obtain ⟨hk, ho, hal, ht, _⟩ := h'
       have hk' : k' = k := by omega
-      subst hk'; subst ho
-      exact ⟨t', pre', rfl, hal, ht⟩
+      subst hk'
+      exact ⟨o, t', pre', rfl, ho, hal, ht⟩
 
 /-- Every exit closes the entry of the same invocation. -/
 theorem ChainOk_exit_enter {lim : Option Nat} {post pre : List HEv} {k : Nat} {o : Outcome} {tm : Int}
@@ -184,11 +222,11 @@ theorem ChainOk_exit_enter {lim : Option Nat} {post pre : List HEv} {k : Nat} {o
       subst hk
       exact ⟨t', pre', rfl⟩
 
-/-- Nothing follows an exit unless it was an `Exception` that the guard allows to restart; then the next event is
-the entry of the next invocation, not before the delay. -/
+/-- Nothing follows an exit unless it was a failure (an `Exception`) that the guard allows to restart; then the next
+event is the entry of the next invocation, not before the delay. -/
 theorem ChainOk_after_exit {lim : Option Nat} {post pre : List HEv} {k : Nat} {o : Outcome} {tm : Int}
     (h : ChainOk lim (post ++ .exit k o tm :: pre)) :
-    post = [] ∨ (o = .exc ∧ restartAllowed lim k = true ∧
+    post = [] ∨ (o.isFailure = true ∧ restartAllowed lim k = true ∧
       ∃ post' t1, post = post' ++ [.enter (k + 1) t1] ∧ tm + restartDelayUs ≤ t1) := by
   rcases List.eq_nil_or_concat post with hp | ⟨post', x, hp⟩
   · exact Or.inl hp
